@@ -32,7 +32,7 @@ package signing_proposal_fsm
 //   the signing deadline (ExpiresAt, fixed when the round became signing-ready) is not renewed per batch, so it must stay disarmed:
 //   a contribution does not move the clock the validator compares it with
 //@   ensures[C06.nodeadline,C07.nodeadline] sp(m).ExpiresAt == old(sp(m).ExpiresAt) && sp(m).UpdatedAt == old(sp(m).UpdatedAt)
-//@   ensures[C01.stored] err == nil ==> (forall i int :: 0 <= i && i < len(psReq(args).PartialSigns) ==> (psReq(args).PartialSigns[i].MessageID in sgnQ(m.payload)[psReq(args).ParticipantId].PartialSigns))
+//@   ensures[C01.stored,C06.stored] err == nil ==> (forall i int :: 0 <= i && i < len(psReq(args).PartialSigns) ==> (psReq(args).PartialSigns[i].MessageID in sgnQ(m.payload)[psReq(args).ParticipantId].PartialSigns))
 //@   loop 0 invariant signingProposalParticipant == old(sgnQ(m.payload)[psReq(args).ParticipantId]) && signingProposalParticipant != nil && signingProposalParticipant.PartialSigns != nil
 //@   loop 0 invariant unchanged(internal.SigningProposalParticipant.Status, internal.SigningProposalParticipant.Error, "*internal.SigningConfirmation", "*internal.DumpedMachineStatePayload", "map[int]*internal.SigningProposalParticipant")
 //@   loop 0 invariant forall q *internal.SigningProposalParticipant :: !fresh(q) && q != signingProposalParticipant ==> (q.PartialSigns == old(q.PartialSigns))
